@@ -582,7 +582,7 @@ def run_coverage(ck):
 def run(ck):
     if os.environ.get('VERIF_COVERAGE') == '1':
         return run_coverage(ck)
-    n_thm = 42
+    n_thm = 45
     # 1. regenerate the Lean description of Equal / hash / HashCombine from the current tree
     gen = os.path.join(LEAN, 'MpVerif', 'Gen', 'C18.lean')
     rc, out, err = sh([sys.executable, os.path.join(VERIF, 'translators', 'gen_expr_c18.py'), REPO, gen,
